@@ -12,11 +12,20 @@ CLAIMS = {
         text='Proof (full). Every bp8v_/bp4v_/_mv_ operator (k=1..4) is re-translated from the current logic.py by tracing symbolic '
              'execution into a straight-line bit-plane program; Coq proves each program equal to the documented algebra on all 8^k/4^k '
              'operand tuples (bit-parallel sweep + soundness lemma), lane independence for any width (lifting lemma), Boolean restriction '
-             'and De Morgan for any operand count on {0,1} and for k<=4 on all eight values. The public wrappers (shapes, broadcasting, '
-             'out=) are tied by correspondence tests only.',
+             'and De Morgan for any operand count on {0,1} and for k<=4 on all eight values; the unary bit-parallel operators are additionally traced IN PLACE '
+             '(output array = operand, as LogicSim calls them) and proved equal to NOT / BUF (C12_unary_inplace). ARRAY LAYER (Model/NdArray.v, MvWrappers.v, '
+             'MvTransition.v): a shape-polymorphic array model (row-major index/offset bijection, numpy broadcasting rule with exact failure condition) and '
+             'transcriptions of mv_not / mv_and / mv_or / mv_xor / mv_transition; proved for ALL shapes: the result at every multi-index is the documented '
+             'algebra of the operands at that index modulo their shapes (C12_broadcast_index, C12_wrapper_elementwise), the exact result and exactly when the call '
+             'raises (C12_wrapper_exact), a caller-supplied out= of the broadcast shape receives exactly the out=None result whatever it held before, other outs fail '
+             '(C12_wrapper_out, _not_out, _transition_out), np.empty content is unobservable; element functions = traced two-operand kernels.',
         design_ref='5/C12',
-        note='Modelled not verified: the mv_* wrapper functions (allocation of out, broadcasting) are covered by differential tests; '
-             'the tracing translator is trusted but its output is compared with the real functions on every operand combination on every run.'),
+        note='Modelled not verified: the mv_* wrapper functions are hand transcriptions numpy call by numpy call (two-operand case, uint8, codes < 8), compared with numpy on '
+             'random shapes of rank 0..5 incl. length-0/1 axes, stretched operands on either side, incompatible shapes, out= absent / right / wrong, keyword and positional (harness/nd_corr.py); '
+             'numpy primitive semantics are assumptions validated by that comparison; kernels with more than two operands are proved per element only. Reading: an out= array that overlaps an operand '
+             'is outside the property for the array operators and the n-ary bit-parallel operators (they initialise out before reading; only the unary bit-parallel operators are used in place). '
+             'The tracing translator is trusted but its output is compared with the real functions on every operand combination on every run. D35 (broadcasting towards the first operand raised) was found here and fixed (666613e); '
+             'C12_wrapper_broadcast_refuted keeps the witness for the old code.'),
     'C01': dict(
         technique='Coq proof that the scheduler\'s op list, executed gate by gate, satisfies every node\'s equation for all well-formed acyclic netlists (+ uniqueness), over regenerated LUT/dispatch tables; memory map by certificate; exact correspondence; gate-by-gate oracle',
         text='Proof (end to end for all option combinations, from the compared model down to the unique gate-by-gate solution). Proved for all inputs: every LUT constant equals its primitive\'s '
@@ -205,7 +214,8 @@ CLAIMS = {
              'of byte j/8, padding lanes 0); mvarray puts p >= 2 pattern strings on the last axis and signals on axis -2 with entry [i][j] = '
              'interpret(pattern_j[i]), one pattern gives a 1-D array, one-character strings are scalars; the eight values render to 0X-1PRFN and '
              'parse back, every documented alias parses to its value, every other code point (unbounded) is UNKNOWN, string -> array -> string and '
-             'array -> string -> array round trips; unpackbits = two\'s complement bits (Z.testbit), packbits(unpackbits x) = x for every value of '
+             'array -> string -> array round trips; ANY RANK (Model/NdArray.v): bp_to_mv(mv_to_bp(x)) = x padded, for any list of leading axes incl. length-0 axes and rank 1, element-wise statement, '
+             'axis convention at any rank, swapaxes as multi-index exchange, failure below the minimum rank (C15_roundtrip_any_rank, _rank1, _get, C15_axis_convention_any_rank, C15_swapaxes_index, C15_conv_low_rank); unpackbits = two\'s complement bits (Z.testbit), packbits(unpackbits x) = x for every value of '
              'int8..int64/uint8..uint64, unpackbits(packbits l) = l for bit lists of the dtype\'s width, sign-/zero-extension and truncation of '
              'other widths; _pop_count_lut[b] = number of one bits for all 256 bytes and popcount = sum. The character/scalar table, the rendering '
              'table, the documented aliases (docstrings) and _pop_count_lut are regenerated from the working tree on every run and the theorems '
